@@ -159,6 +159,8 @@ func decls(host *Host) native.Declarations {
 		"Emit":   func(env native.Env, a ...any) { env.Print(fmt.Sprint(a...), "\n") },
 		"Sprint": func(a ...any) string { return fmt.Sprint(a...) },
 		"Apply":  func(f func(int) int, x int) int { return f(x) + 1 },
+		// a native that calls back a macro value (templates)
+		"CallM": func(f func(int) native.HTML, x int) native.HTML { return "<" + f(x) + ">" },
 		// natives that call Scriggo function values (callable.Value: a new VM per call)
 		"Until": func(f func() bool) {
 			for !f() {
